@@ -75,6 +75,11 @@ def run(ctx):
     wit = [("stale momentum list", [G([1, 1, 2], [2, 2, 2])], 4, (), moves, ("RecompressOnlyIfNonZeroNow",))]
     sp.run_mc(ctx, mc, wit)
     tasks = sp.gen_tasks(ctx, rng, 10 if quick else 60, 12 if quick else 40, make_groups, 7, ("fail",), ("mom", "b1", "wd", "lr"))
+    # bounded-exhaustive: every behaviour of depth 3 (4 thorough): three equal blocks of two params, momentum / beta1 set to 0 and back
+    tasks += sp.exhaustive_tasks(ctx, rng, [family.draw_group(rng, "m2x3", kind="shampoo", filt=True, mom=True, freq=2, start=2, graft="adagrad")],
+                                 3 if quick else 4, (), ("mom", "b1"))
+    tasks += sp.exhaustive_tasks(ctx, rng, [family.draw_group(rng, "v3p", kind="shampoo", filt=True, mom=True, freq=1, start=1, graft="rmsprop")],
+                                 3, (), ())
     sp.run_rt(ctx, tasks, owns, "mask_mechanism", control)
     sp.run_histories(ctx, rng, 24 if quick else 300, make_groups, 25 if quick else 40, ("fail",), ("mom", "b1", "wd"), owns, "mask_mechanism_long")
     sp.run_repo_tests(ctx, owns, "mask_mechanism_repo_tests")
